@@ -102,9 +102,12 @@ func (p *PubSub) handleNewStream(s network.Stream) {
 	for {
 		// Peek at the message length to know when we should mark the start time
 		// for measuring how long it took to receive a message.
-		_, _ = r.NextMsgLen()
+		_, err := r.NextMsgLen()
 		start := time.Now()
-		msgbytes, err := r.ReadMsg()
+		var msgbytes []byte
+		if err == nil {
+			msgbytes, err = r.ReadMsg()
+		}
 		if err != nil {
 			r.ReleaseMsg(msgbytes)
 			if err != io.EOF {
